@@ -133,3 +133,86 @@ def faces_of_cells(g):
 def nodes_of_faces(g):
     fn = g.face_nodes.tocsc()
     return [fn.indices[fn.indptr[f]:fn.indptr[f + 1]].tolist() for f in range(g.num_faces)]
+
+
+# --------------------------------------------------------------------------- hand-assembled 1-d grids
+@st.composite
+def perm1d_spec(draw, max_cells=7, rigid=True):
+    """A valid 1-d grid on a line with random spacings whose cells, nodes and faces are numbered by
+    random permutations (cells not monotone along the line), optionally with the reversed sign
+    convention and embedded by a rigid motion.
+    Spec: {"x": [node positions, increasing], "cperm", "nperm", "fperm": permutations, "rev": bool,
+           "rigid": rigid spec | None}; physical cell k = [x[k], x[k+1]] gets index cperm[k], physical node
+    i gets node index nperm[i] and face index fperm[i]."""
+    from .grids import rigid_spec
+
+    n = draw(st.sampled_from([1, 2] + list(range(3, max_cells + 1)) * 3))
+    x0 = draw(_f(-2, 2))
+
+    def perm(k):  # argsort of random keys: far less biased towards the identity than st.permutations
+        keys = draw(st.lists(st.integers(0, 10**6), min_size=k, max_size=k))
+        return [int(i) for i in np.argsort(np.array(keys), kind="stable")]
+
+    steps = [draw(_f(0.3, 2.0)) for _ in range(n)]
+    x = [x0] + list(np.cumsum(steps) + x0)
+    mode = draw(st.sampled_from(["random"] * 6 + ["reversed", "identity"]))
+    if mode == "random":
+        cperm = perm(n)
+        nperm = perm(n + 1)
+        fperm = perm(n + 1) if draw(st.booleans()) else list(nperm)
+    elif mode == "reversed":
+        cperm, nperm = list(range(n))[::-1], list(range(n + 1))
+        fperm = list(nperm)
+    else:
+        cperm, nperm = list(range(n)), list(range(n + 1))
+        fperm = list(nperm)
+    return {"x": [float(v) for v in x], "cperm": cperm, "nperm": nperm, "fperm": fperm, "rev": draw(st.booleans()),
+            "rigid": draw(rigid_spec()) if rigid else None}
+
+
+def build_perm1d(spec, compute_geometry=True):
+    import porepy as pp
+    import scipy.sparse as sps
+
+    from .grids import rigid_of
+
+    x = np.asarray(spec["x"], dtype=float)
+    n = x.size - 1
+    nperm, fperm, cperm = spec["nperm"], spec["fperm"], spec["cperm"]
+    nodes = np.zeros((3, n + 1))
+    for i in range(n + 1):
+        nodes[0, nperm[i]] = x[i]
+    # face fperm[i] sits at node nperm[i]
+    fn = sps.coo_matrix((np.ones(n + 1, dtype=int), ([nperm[i] for i in range(n + 1)], [fperm[i] for i in range(n + 1)])),
+                        shape=(n + 1, n + 1)).tocsc()
+    rows, cols, data = [], [], []
+    lo, hi = (1, -1) if spec["rev"] else (-1, 1)
+    for k in range(n):
+        rows += [fperm[k], fperm[k + 1]]
+        cols += [cperm[k], cperm[k]]
+        data += [lo, hi]
+    cf = sps.coo_matrix((np.array(data), (np.array(rows), np.array(cols))), shape=(n + 1, n)).tocsc()
+    if spec.get("rigid"):
+        R, t = rigid_of(spec)
+        nodes = R @ nodes + t[:, None]
+    g = pp.Grid(1, nodes, fn, cf, "Permuted1dGrid")
+    if compute_geometry:
+        g.compute_geometry()
+    return g
+
+
+def perm1d_meta(spec):
+    n = len(spec["x"]) - 1
+    labels = ["dim1", "kind-perm1d"]
+    monotone = spec["cperm"] == list(range(n)) or spec["cperm"] == list(range(n))[::-1]
+    if not monotone:
+        labels.append("1d-permuted-cells")
+    if spec["nperm"] != list(range(n + 1)):
+        labels.append("1d-permuted-nodes")
+    if spec["fperm"] != spec["nperm"]:
+        labels.append("1d-permuted-faces")
+    if spec["rev"]:
+        labels.append("1d-reversed-signs")
+    if spec.get("rigid"):
+        labels.append("embedded")
+    return {"measure": float(spec["x"][-1] - spec["x"][0]), "labels": labels}
